@@ -221,6 +221,10 @@ class Sym:
         if d is None:
             return Poly.atom(("call", fn.uid, bb))
         name = d.get("n", "")
+        if name in ("add", "sub", "mul") and len(t["a"]) == 2 and d.get("p", "").startswith(("std::ops::", "core::ops::")):
+            a = self.operand(t["a"][0], (), depth + 1)
+            b = self.operand(t["a"][1], (), depth + 1)
+            return a + b if name == "add" else (a - b if name == "sub" else a * b)
         if name in PURE_NAMES or name.endswith("_tmp_bytes") or name.startswith("bytes_of"):
             args = tuple(self.operand(a, (), depth + 1).key() for a in t["a"])
             if name in ("into", "from", "as_usize", "clone", "deref", "as_ref", "borrow", "as_u32", "to_ref") and len(args) == 1:
